@@ -98,9 +98,15 @@ class World:
         cat = self.yaw.Catalog(path, max_workers=1)
         cat.build_trees(self.config.binning.edges, closed=self.config.binning.closed, max_workers=W)
         out = {}
+        from yaw.catalog.trees import BinnedTrees
+
         for pid, patch in cat.items():
+            trees = BinnedTrees(patch).trees
+            trees = trees if isinstance(trees, tuple) else (trees,)
+            # the content of the trees (not the pickle byte stream, whose memo layout is no result)
             out[int(pid)] = dict(
-                trees=(patch.cache_path / "trees.pkl").read_bytes().hex()[:0] or _digest((patch.cache_path / "trees.pkl").read_bytes()),
+                trees=[dict(n=t.num_records, sw=float(t.sum_weights).hex(), data=_digest(np.ascontiguousarray(t.data).tobytes()),
+                            w=None if t.weights is None else _digest(np.ascontiguousarray(t.weights).tobytes())) for t in trees],
                 binning=(patch.cache_path / "binning").read_bytes().hex(),
             )
         return out
@@ -327,6 +333,7 @@ tvars == <<W, NT, next, running, out, tid, l>>
    with the recorded worker of every task produces the recorded arrival order *)
 T == Traces[tid]
 TInit == /\ tid \in 1..Len(Traces) /\ l = 0
+         /\ TLCSet(tid, FALSE)
          /\ W = Traces[tid].W /\ NT = Traces[tid].NT /\ next = 1
          /\ running = [i \in 1..Traces[tid].W |-> 0] /\ out = <<>>
 TDispatch(i) == /\ Dispatch(i) /\ T.assign[next] = i /\ UNCHANGED <<tid, l>>
